@@ -2,9 +2,10 @@ from vlib.runner import Tie
 from vlib import core
 import os, struct
 
-# C47_NO_EXCLUDE=1 also generates merge cases in which only one side carries PSBT_IN_SIGHASH_TYPE (the unchanged
-# tree does not merge that field, see RULE / report)
-NO_EXCLUDE = os.environ.get("C47_NO_EXCLUDE") == "1"
+# Merge cases in which only one side carries PSBT_IN_SIGHASH_TYPE are generated: the pinned snapshot did not merge
+# that field (genuine defect, repaired by the "fix:" commit be3e2f2 in /repo; known_findings.json lists it as fixed,
+# which suppresses nothing: if the defect returns these cases fail again).
+NO_EXCLUDE = os.environ.get("C47_EXCLUDE") != "1"
 
 ID = "C47"
 LEVEL = "proof"
